@@ -114,6 +114,9 @@ namespace vf
         bool          verbose = false;
         std::vector<std::string> trace;
         std::set<std::string>    flags;
+        // a violation of one of `also_for` is, in the current engine, also a violation of `also` (e.g. overlapping allocations of an
+        // iteration_allocator violate C01 and C07): the line then carries both ids
+        std::string also, also_for;
         std::uint64_t            sig = 0;
 
         // accumulated over the process
@@ -222,6 +225,8 @@ namespace vf
         c.step    = 0;
         c.trace.clear();
         c.flags.clear();
+        c.also.clear();
+        c.also_for.clear();
         c.sig = fnv(0xcbf29ce484222325ull, kind + "|" VERIF_CONFIG_NAME "|" + c.group);
         snprintf(crumb().case_id, sizeof crumb().case_id, "%s", case_id().c_str());
         crumb().step = 0;
@@ -277,7 +282,10 @@ namespace vf
         va_end(ap);
         auto& c = cx();
         ++c.viols;
-        emit(fmt("{\"t\":\"viol\",\"prop\":\"%s\",\"key\":\"%s\",\"case\":\"%s\",\"step\":%d,\"msg\":\"", prop,
+        std::string props = prop;
+        if (!c.also.empty() && c.also != prop && c.also_for.find(prop) != std::string::npos)
+            props += "+" + c.also;
+        emit(fmt("{\"t\":\"viol\",\"prop\":\"%s\",\"key\":\"%s\",\"case\":\"%s\",\"step\":%d,\"msg\":\"", props.c_str(),
                  jesc(key).c_str(), jesc(case_id()).c_str(), c.step)
              + jesc(b) + "\",\"trace\":" + trace_json(60) + "}");
         throw case_abort{};
